@@ -230,6 +230,7 @@ func runC20(c *report.Ctx) {
 
 	// ---- (4) suspend / resume typestate ----------------------------------------------------------------------------
 	ruleSuspendResume(c)
+	ruleSuspendRefusesOnlyOnQuit(c)
 	ruleQueueHeadroom(c)
 	ruleCloseDBAlwaysDone(c)
 	ruleNotificationsQueued(c)
